@@ -5,6 +5,7 @@ git -C /repo diff --quiet || { echo "/repo has uncommitted changes"; exit 2; }
 IDS=$(python3 -c "import json; print(' '.join(c['property_id'] for c in json.load(open('MANIFEST.json'))['checks']))")
 RC=0
 for p in ${@:-$IDS}; do ./check $p --tier quick 2>&1 | grep -E "^\[|^VIOLATION" ; done
+python3 tools/asbuilt.py >/dev/null
 python3-vt - <<'P'
 import json,jsonschema,sys
 m=json.load(open('/verif/MANIFEST.json'))
